@@ -1,6 +1,8 @@
 """C09 -- slicing a dataset keeps exactly the selected cells together with
 their bin edges; squeezing removes exactly the unit dimensions."""
 import itertools
+import os
+import sys
 from collections import OrderedDict
 
 import numpy as np
@@ -69,9 +71,19 @@ def _slice_case(draw):
     slices = [(draw(_bound(n)), draw(_bound(n)), draw(st.sampled_from([None, 1])))
               for n in shape]
     astuple = True if ndim > 1 else draw(st.booleans())
-    return {'op': 'slice', 'shape': shape, 'kinds': kinds, 'slices': slices,
+    if 1 in shape and ndim > 1 and any(n != 1 for n in shape) and draw(st.integers(0, 2)) == 1:
+        # two-step history: the dataset is squeezed first, the squeezed dataset is sliced
+        return {'op': 'slice', 'shape': shape, 'kinds': kinds, 'slices': slices, 'presqueeze': True,
+                'astuple': True, 'layout': draw(st.sampled_from(dsutil.LAYOUTS)),
+                'grids': [draw(_GRID) for _ in range(ndim)], 'keys': draw(_KEYS)}
+    case = {'op': 'slice', 'shape': shape, 'kinds': kinds, 'slices': slices,
             'astuple': astuple, 'layout': draw(st.sampled_from(dsutil.LAYOUTS)),
             'grids': [draw(_GRID) for _ in range(ndim)], 'keys': draw(_KEYS)}
+    if astuple and draw(st.integers(0, 5)) == 3:
+        # a second thread slices the same dataset while this slice is in progress
+        case['other'] = {'k': draw(st.integers(1, 8)),
+                         'slices': [(draw(_bound(n)), draw(_bound(n)), None) for n in shape]}
+    return case
 
 
 @st.composite
@@ -116,9 +128,9 @@ def _build(case):
     return Dataset(value, error, bins=bins, name='ds', what='w'), value, error, bins
 
 
-def _features(case, dim):
-    start, stop, _ = case['slices'][dim]
-    n = case['shape'][dim]
+def _features(specs, shape, dim):
+    start, stop, _ = specs[dim]
+    n = shape[dim]
 
     def cls(x):
         if x is None:
@@ -133,19 +145,87 @@ def _features(case, dim):
     return cls(start), cls(stop)
 
 
+def _sliced_while_another_thread_slices(dset, index, other, shape, out):
+    """``dset[index]`` during which, at the ``other['k']``-th function call made inside
+    valjean/eponine/dataset.py, ANOTHER slice of the same dataset runs to completion: what a second
+    thread slicing the shared dataset does when the interpreter switches threads at that point
+    (a context switch may happen at any call boundary).  Both selections must be the ones asked
+    for; the result of the interrupted one is returned and judged by the caller."""
+    slices2 = tuple(slice(*spec) for spec in other['slices'])
+    state = {'calls': 0, 'ran': False, 'res': None, 'exc': None}
+    previous = sys.gettrace()
+
+    def tracer(frame, event, _arg):
+        if event == 'call' and frame.f_code.co_filename.endswith(os.path.join('eponine', 'dataset.py')):
+            state['calls'] += 1
+            if state['calls'] == other['k'] and not state['ran']:
+                state['ran'] = True
+                sys.settrace(None)
+                try:
+                    state['res'] = dset[slices2]
+                except Exception as exc:      # pylint: disable=broad-except
+                    state['exc'] = exc
+                finally:
+                    sys.settrace(tracer)
+        return None
+    sys.settrace(tracer)
+    try:
+        res = dset[index]
+    finally:
+        sys.settrace(previous)
+    if state['ran']:
+        out.labels.append('slice-interleaved-with-another-slice')
+        ranges2 = [sl.indices(n)[:2] for sl, n in zip(slices2, shape)]
+        if state['exc'] is not None:
+            out.failures.append(exc_failure('slice_raises', state['exc'], 'second-thread'))
+        elif not any(hi <= lo for lo, hi in ranges2):
+            exp_shape = tuple(hi - lo for lo, hi in ranges2)
+            got = state['res']
+            bad = got.value.shape != exp_shape or any(
+                len(arr) not in (n, n + 1) for arr, n in zip(got.bins.values(), exp_shape))
+            if bad:
+                out.failures.append(Failure(
+                    'slice_bins', 'C09/slice_bins/second-thread',
+                    f'a second slice {other["slices"]} of the same dataset, run while the first one was '
+                    f'in progress, has shape {got.value.shape} and bins of lengths '
+                    f'{[len(a) for a in got.bins.values()]}, expected shape {exp_shape}'))
+    return res
+
+
 def run_case(case):
     out = Outcome()
     dset, value, error, bins = _build(case)
     before = dsutil.snapshot(dset)
+    shape, kinds, specs = list(case['shape']), case['kinds'], list(case['slices']) \
+        if case['op'] == 'slice' else None
+    if case['op'] == 'slice' and case.get('presqueeze'):
+        out.labels.append('slice-of-a-squeezed-dataset')
+        keep = [d for d, n in enumerate(shape) if n != 1]
+        try:
+            dset = dset.squeeze()
+        except Exception as exc:
+            out.failures.append(exc_failure('squeeze_raises', exc, 'before-slice'))
+            return out
+        before = dsutil.snapshot(dset)
+        value, error = np.squeeze(value), np.squeeze(error)
+        if bins is not None:
+            bins = OrderedDict(item for d, item in enumerate(bins.items()) if d in keep)
+            kinds = [kinds[d] for d in keep]
+        shape = [shape[d] for d in keep]
+        specs = [specs[d] for d in keep]
     if case['op'] == 'slice':
         out.labels.append('slice')
-        slices = tuple(slice(*s) for s in case['slices'])
-        index = slices if case['astuple'] else slices[0]
-        ranges = [s.indices(n)[:2] for s, n in zip(slices, case['shape'])]
+        slices = tuple(slice(*s) for s in specs)
+        index = slices if case['astuple'] or case.get('presqueeze') else slices[0]
+        ranges = [s.indices(n)[:2] for s, n in zip(slices, shape)]
         empty = any(hi <= lo for lo, hi in ranges)
         out.labels.append('empty-selection' if empty else 'nonempty-selection')
+        other = case.get('other')
         try:
-            res = dset[index]
+            if other:
+                res = _sliced_while_another_thread_slices(dset, index, other, shape, out)
+            else:
+                res = dset[index]
         except Exception as exc:  # the property promises a dataset for every such slice
             out.failures.append(exc_failure('slice_raises', exc,
                                             'empty' if empty else 'nonempty'))
@@ -167,17 +247,17 @@ def run_case(case):
                                                 f'{list(res.bins)} vs {list(bins)}'))
                 else:
                     for dim, ((lo, hi), key) in enumerate(zip(ranges, bins)):
-                        kind = case['kinds'][dim]
+                        kind = kinds[dim]
                         exp = bins[key][lo:hi + 1] if kind == 'e' else bins[key][lo:hi]
                         if not dsutil.same_array(res.bins[key], exp):
-                            fstart, fstop = _features(case, dim)
+                            fstart, fstop = _features(specs, shape, dim)
                             out.failures.append(Failure(
                                 'slice_bins',
                                 f'C09/slice_bins/kind={kind}/start={fstart}',
-                                f'dim {dim} N={case["shape"][dim]} slice={case["slices"][dim]}: '
+                                f'dim {dim} N={shape[dim]} slice={specs[dim]}: '
                                 f'bins {res.bins[key].tolist()} expected {exp.tolist()}'))
                         if kind == 'e':
-                            feats = _features(case, dim)
+                            feats = _features(specs, shape, dim)
                             if set(feats) & {'neg', 'below', 'above'}:
                                 out.nontrivial = True
                                 out.labels.append('edges-neg-or-oor-bound')
